@@ -617,6 +617,16 @@ def r11_restore_is_verbatim(ctx, rule):
             if 'save_config.get' not in U(st.value):
                 ok = False
                 ctx.bad(rule, LOAD_SAVE, "program_info['%s'] = %s" % (k, U(st.value)[:50]), 'the value must come from the save file', None, st)
+            else:
+                # ... and from the option of the same name: the writer (create_save_config, C14.R14) stores each flag under its own key
+                opts = [const(c.args[-1]) for c in ast.walk(st.value) if isinstance(c, ast.Call) and isinstance(c.func, ast.Attribute)
+                        and c.func.attr in GETTERS and c.args and isinstance(const(c.args[-1]), str)]
+                if opts and k not in opts:
+                    ok = False
+                    ctx.bad(rule, LOAD_SAVE, "program_info['%s'] restored from the option %s" % (k, opts),
+                            'every flag of a saved session is read back from the key it was saved under; read from the other '
+                            "flag's key, a session started with exactly one of --skip_brute / --all_lower resumes in another grammar",
+                            None, st, firm=True)
     for c in calls_in(fn):
         if isinstance(c.func, ast.Attribute) and c.func.attr in ('set', 'remove_option', 'remove_section', 'add_section') and 'save_config' in U(c.func.value):
             ok = False
@@ -801,11 +811,22 @@ def r20_position_verbatim(ctx, rule):
         ctx.ok(rule, PQF + '::PcfgQueue', 'self.max_probability is stored %d times: a constant, the saved option read with getfloat, the popped probability' % n_ok)
 
 
+def _shared_rule(mod, name, **kw):
+    def run(ctx, rule):
+        import importlib
+        return getattr(importlib.import_module('sa.props.' + mod), name)(ctx, rule, **kw)
+    return run
+
+
 def rules(tier):
     return [('C08.R1', r1_uuid_gate), ('C08.R2', r2_region_agreement), ('C08.R3', r3_canonical_descent),
             ('C08.R4', r4_saved_position), ('C08.R5', r5_sav_keys), ('C08.R6', c01.r5_successor),
             ('C08.R7', c01.r4_prob_pt_coupling), ('C08.R8', c01.r1_heap_order), ('C08.R9', r9_restore_depth), ('C08.R11', r11_restore_is_verbatim),
-            ('C08.R10', _exact_float), ('C08.R12', r12_uuid_is_fresh), ('C08.R13', r13_grammar_order), ('C08.R14', _one_shot), ('C08.R15', _omn_names), ('C08.R16', _omen_save_restore), ('C08.R17', r17_session_state_per_object), ('C08.R18', _quit_points), ('C08.R19', _heap_ownership), ('C08.R20', r20_position_verbatim)]
+            ('C08.R10', _exact_float), ('C08.R12', r12_uuid_is_fresh), ('C08.R13', r13_grammar_order), ('C08.R14', _one_shot), ('C08.R15', _omn_names), ('C08.R16', _omen_save_restore), ('C08.R17', r17_session_state_per_object), ('C08.R18', _quit_points), ('C08.R19', _heap_ownership), ('C08.R20', r20_position_verbatim),
+            # C08-cb: _are_you_my_child operands swapped - the restore walk assumes the least probable parent adopts
+            ('C08.R21', _shared_rule('c02', 'r1_adoption_kernel')),
+            # C08-ca: skip_case saved from program_info['skip_brute']
+            ('C08.R22', _shared_rule('c14', 'r14_saved_flags_verbatim'))]
 
 
 META = {
